@@ -116,6 +116,37 @@ def op_add_style(sim: Sim, a) -> str:
     return "ok"
 
 
+@op("mutate_style")
+def op_mutate_style(sim: Sim, a) -> str:
+    """Change one attribute of a style object that was created in this session (and may already be applied):
+    every cell carrying the style must read back the new value, now and after reload."""
+    ds = sim.pick_doc(a["d"])
+    if ds is None:
+        return "skip"
+    objs = getattr(ds, "style_objs", {}) if sim.real else {n: None for n in ds.model.styles}
+    names = [n for n in ds.model.styles if n in objs]
+    if not names:
+        return "skip"
+    name = names[a["style"] % len(names)]
+    attrs = ds.model.styles[name]
+    k, v = a["attr"], a["value"]
+    if k == "bg_color" and attrs.get("bg_image") is not None:
+        return "skip"
+    if isinstance(v, list):
+        v = tuple(v)
+    attrs = dict(attrs)
+    if v is None:
+        attrs.pop(k, None)
+    else:
+        attrs[k] = v
+    ds.model.styles[name] = attrs
+    if sim.real:
+        kw = _style_kwargs({k: v})
+        setattr(objs[name], k, kw[k])
+        sim.probe("style_mutated_" + k)
+    return "ok"
+
+
 @op("set_style")
 def op_set_style(sim: Sim, a) -> str:
     ds = sim.pick_doc(a["d"])
